@@ -6,6 +6,18 @@ CHECKS = {
  "C01": ("seqx", "4 C01", "explicit-state BFS over request/clock/provider/fault histories on the real handler and stores (memory, Redis) with an abstract-session oracle",
          "Every OK verdict in every explored history (depth 5 quick / 6 thorough; every env call of every check failing before/after/crash, pairs in thorough) is justified by the ghost store + provider ledger and a fault-free check.",
          "Handler-level (Process on a per-check handler, as Check builds it); session time-outs 0; alphabet-bounded."),
+ "C02": ("seqx", "4 C02", "explicit-state BFS over login/refresh histories with a 37-element adversarial ID-token grammar as provider answers; independent stdlib JWS verifier as oracle",
+         "Every SetTokenResponse in every explored history stores a token the simulated provider returned in that check (or the one already bound) that passes an independent signature/audience/nonce validator; every OK forwards exactly the bound tokens under the configured header/preamble.",
+         "Grammar-bounded: validly signed non-compact serialisations and whitespace-wrapped tokens are outside it; handler-level."),
+ "C05": ("seqx", "4 C05", "explicit-state BFS with the real random id generator; ghost sets of presented/issued ids; RFC 6265 Set-Cookie parser as oracle",
+         "In every explored history (depth 6/7, 3 cookie prefixes, memory+Redis) each login redirect issues an id never presented or issued before and leaves nothing under the presented id; tokens/login state are only stored under issued ids; every Set-Cookie is __Host-, Path=/, no Domain, Secure, HttpOnly, SameSite; logout expires it.",
+         "Handler-level; prefixes are RFC 6265 tokens."),
+ "C11": ("seqx", "4 C11", "explicit-state BFS from the logged-in state over many token lifetimes against a ledger-keeping provider; reference merge as oracle",
+         "Every refresh-grant request in every explored history (depth 9/12) carries the provider's current refresh token and the client credentials; on an honest 200 the stored and forwarded result equals the reference merge; on any failure the request is denied, the stale session is gone and a re-login redirect with a new cookie is answered.",
+         "Unparsable id_token in a refresh answer is outside the alphabet; expiry compared with 10 s tolerance."),
+ "C14": ("seqx", "4 C14", "explicit-state BFS over the union alphabet (faults, failing/forged provider answers, near-miss callbacks) with a marker-search monitor over every serialised answer",
+         "No denied/redirect answer of any explored history contains the client secret, a PKCE verifier, a refresh/access/ID token or client_id:secret in raw, escaped, hex or base64 (3 alignments) form; OK answers add only the configured token headers.",
+         "Encodings searched are the listed ones; logs are not answers."),
  "C07": ("enumx", "4 C07", "bounded-exhaustive enumeration of rule sets x targets against a reference evaluator on the real ExtAuthZFilter.Check",
          "All rule sets of the pattern grammar (<=1/<=1 patterns per rule + pairs quick; <=2/<=2 thorough) x 84 targets: verdict equals the documented function of the path and is invariant under any ?query/#fragment tail.",
          "Alphabet of 37 patterns / 84 targets; 'randomly beyond' not claimed."),
